@@ -30,7 +30,7 @@ FCC_CHARS = "ABCDEFGHIJKLMNOPQRSTUVWXYZabcdefghijklmnopqrstuvwxyz0123456789"
 def gen_program(rnd, n, features=None, origin=None, short_reach=6):
     """features: set restricting statement kinds; None = everything in the 'safe' grammar"""
     F = features or {"inh", "imm", "mem", "memlbl", "immlbl", "idx", "idxconst", "idxneg", "rel", "lrel", "pcr", "data", "equ", "stack",
-                     "expr", "extind"}
+                     "expr", "extind", "datalbl"}
     nlabels = max(1, min(len(LABEL_POOL), n // 3 + 1))
     names = rnd.sample(LABEL_POOL, nlabels)
     equs = []
@@ -59,7 +59,7 @@ def gen_program(rnd, n, features=None, origin=None, short_reach=6):
 
     kinds = []
     for k, w in (("inh", 3), ("imm", 3), ("mem", 2), ("memlbl", 3), ("immlbl", 2), ("idx", 3), ("idxconst", 3), ("idxneg", 1),
-                 ("rel", 3), ("lrel", 2), ("pcr", 2), ("data", 3), ("stack", 1), ("expr", 2), ("extind", 1), ("equuse", 2 if equs else 0)):
+                 ("rel", 3), ("lrel", 2), ("pcr", 2), ("data", 3), ("datalbl", 1), ("stack", 1), ("expr", 2), ("extind", 1), ("equuse", 2 if equs else 0)):
         if k in F or (k == "equuse" and "equ" in F):
             kinds += [k] * w
     for i, s in enumerate(stmts):
@@ -129,6 +129,30 @@ def gen_program(rnd, n, features=None, origin=None, short_reach=6):
             t = rnd.choice(["#{%s}", "{%s},X", "[{%s},Y]", "{%s}"])
             mn = rnd.choice(IMM8 if t.startswith("#") else MEM8)
             s.update(mn=mn, op=t % c, refs=[c], kind="equuse")
+        elif k == "datalbl":
+            # address tables: FDB lists whose elements are labels, label+-n, EQU constants and numbers (wordmask: which words move with the origin)
+            items, mask, refs = [], [], []
+            for _ in range(rnd.choice([1, 1, 2, 3, 5])):
+                q = rnd.random()
+                if q < 0.5:
+                    l2 = rnd.choice(defined)
+                    items.append("{%s}" % l2)
+                    mask.append(True)
+                    refs.append(l2)
+                elif q < 0.7:
+                    l2 = rnd.choice(defined)
+                    items.append("{%s}%s%d" % (l2, rnd.choice("+-"), rnd.randrange(1, 9)))
+                    mask.append(True)
+                    refs.append(l2)
+                elif q < 0.8 and equs:
+                    c = rnd.choice(equs)
+                    items.append("{%s}" % c)
+                    mask.append(False)
+                    refs.append(c)
+                else:
+                    items.append(rnd.choice(["%d", "$%04X"]) % rnd.randrange(65536))
+                    mask.append(False)
+            s.update(mn="FDB", op=",".join(items), refs=refs, kind="fdblbl", wordmask=mask)
         elif k == "data":
             r = rnd.random()
             if r < 0.3:
